@@ -59,9 +59,7 @@ class BaseValidator(object):
         self._expected_item_count = len(self._cid.field_formats)
         self._location = None
         self._is_closed = False
-        # Ensure that checks do not remember anything from data previously validated with the same CID.
-        for check in self._cid.check_map.values():
-            check.reset()
+        self._has_reset_checks = False
 
     def __enter__(self):
         return self
@@ -94,6 +92,15 @@ class BaseValidator(object):
         :rtype: cutplace.errors.Location
         """
         return self._location
+
+    def _reset_checks(self):
+        """
+        Ensure that checks do not remember anything from data previously
+        validated with the same CID.
+        """
+        for check in self.cid.check_map.values():
+            check.reset()
+        self._has_reset_checks = True
 
     def validate_row(self, row):
         """
@@ -160,6 +167,9 @@ class BaseValidator(object):
           :py:meth:`cutplace.checks.AbstractCheck.check_at_end` fails.
         """
         if not self._is_closed:
+            if not self._has_reset_checks:
+                # No row has been processed yet, so the checks still remember the previous data.
+                self._reset_checks()
             try:
                 for check_name in self.cid.check_names:
                     self.cid.check_map[check_name].check_at_end(self.location)
@@ -246,8 +256,7 @@ class Reader(BaseValidator):
         """
         self.accepted_rows_count = 0
         self.rejected_rows_count = 0
-        for check in self.cid.check_map.values():
-            check.reset()
+        self._reset_checks()
         header_row_count = self._cid.data_format.header
         for row_count, row in enumerate(self._raw_rows(), 1):
             try:
@@ -289,6 +298,7 @@ class Writer(BaseValidator):
         assert target is not None
 
         super().__init__(cid_or_path)
+        self._reset_checks()
 
         data_format = cid_or_path.data_format
         assert self.cid.data_format.is_valid
